@@ -8,6 +8,7 @@ import Driver.Lit
 import Driver.CliDrv
 import Driver.Run2
 import Driver.ParseDrv
+import Driver.ElabDrv
 open Lean
 
 partial def loop (h : IO.FS.Stream) (out : IO.FS.Stream) (f : Json → Json) : IO Unit := do
@@ -20,16 +21,28 @@ partial def loop (h : IO.FS.Stream) (out : IO.FS.Stream) (f : Json → Json) : I
   | .ok j => out.putStrLn (f j).compress
   loop h out f
 
-def generic (g : DrvRun.GOracle) (j : Json) : Json :=
+/-- both judgements of one case: agreement and specification of both, the notes joined; a pending
+    engine query of the second comes first -/
+def both (j a b : Json) : Json :=
+  if !J.isNull (J.get b "need") then b
+  else J.obj [("id", J.get j "id"), ("agree", J.bool (J.get a "agree") && J.bool (J.get b "agree")),
+              ("spec", J.bool (J.get a "spec") && J.bool (J.get b "spec")),
+              ("note", J.str (J.get a "note") ++ (if J.str (J.get b "note") == "" then "" else " | " ++ J.str (J.get b "note")))]
+
+partial def generic (g : DrvRun.GOracle) (j : Json) : Json :=
   match J.str (J.get j "k") with
-  | "run" => DrvRun.run g j
+  | "run" => DrvElab.run g j
   | "load" => DrvLoad.load g j
   | "bind" => DrvBind.bind j
   | "lex" => DrvLex.lex j
   | "lit" => DrvLit.lits g j
   | "cli" => DrvCli.cli j
   | "run2" => DrvRun2.run2 g j
-  | "parse" => DrvParse.parseCase j
+  | "parse" =>
+    -- the position-free comparison, and (for an accepted text) the whole tree against the front-end model
+    let a := DrvParse.parseCase j
+    if !J.isNull (J.get a "skipped") || J.isNull (J.get j "ast") || J.bool (J.get j "has_err") then a
+    else both j a (DrvElab.elabCase g j)
   | "hist" =>
     -- a history of operations run in one process: every operation is judged on its own against
     -- the (history-free) model
@@ -42,7 +55,9 @@ def generic (g : DrvRun.GOracle) (j : Json) : Json :=
       let mut need : Option Json := none
       let mut n : Nat := 0
       for op in J.arr (J.get j "ops") do
-        let r := DrvRun.run g op
+        -- (an operation without a kind is a run; concurrent histories also hold parses)
+        let r := if J.str (J.get op "k") == "hist" || J.isNull (J.get op "k") then DrvElab.run g op else generic g op
+        if !J.isNull (J.get r "skipped") then continue
         n := n + 1
         if !J.isNull (J.get r "need") then need := some (J.get r "need")
         if !J.bool (J.get r "agree") && agree then
@@ -52,13 +67,18 @@ def generic (g : DrvRun.GOracle) (j : Json) : Json :=
       | some q => return J.obj [("id", J.get j "id"), ("agree", true), ("spec", spec), ("need", q), ("note", "")]
       | none => return J.obj [("id", J.get j "id"), ("agree", agree), ("spec", spec && agree), ("n", n), ("note", note)]
   | "lncol" => DrvC17.lncol j
+  | "errpos" => DrvC17.errpos j
+  | "chainops" => DrvC17.chainops j
+  | "elab" => DrvElab.elabCase g j
+  | "treepos" =>
+    -- the stored positions one by one (DrvC17.treepos) and the whole tree against the front-end model
+    both j (DrvC17.treepos j) (DrvElab.elabCase g j)
   | k => J.obj [("id", J.get j "id"), ("agree", false), ("spec", true), ("note", s!"unknown kind {k}")]
 
 def main (args : List String) : IO UInt32 := do
   let stdin ← IO.getStdin
   let stdout ← IO.getStdout
   match args with
-  | ["C17"] => loop stdin stdout DrvC17.handle; return 0
   | [_] =>
     -- shared engine answers: one JSON array [query-hex, answer-hex] per line
     let mut g : DrvRun.GOracle := {}
